@@ -66,6 +66,11 @@ func Exec(s *Spec, hist []string) (res Res) {
 			w.Outcomes = map[string]int{}
 		}
 		if err := w.Exec(op); err != nil {
+			if len(w.V) > 0 {
+				// an honest set-up / history operation was refused and an oracle already says why: report that, do not
+				// treat it as a harness problem (e.g. a limit predicate changed under a deliberate modification)
+				return Res{Canon: fmt.Sprintf("operation-failed:%d", i), V: w.V}
+			}
 			return Res{Err: fmt.Sprintf("op %d %q: %v", i, op, err), V: w.V}
 		}
 	}
